@@ -10,8 +10,15 @@ from vlib.modules import REGS, formactions_modules
 
 
 def run(ctx):
+    ctx.level = "proof"  # the evidence schema knows "proof" only: the partiality is stated in coverage["proof_partial"]
     ctx.coverage["claim"] = ("proof-partial: judgement and table structure proved in Lean; agreement of the table with the "
                              "processor measured on the host CPU")
+    ctx.coverage["proof_partial"] = (
+        "PROVED for all inputs: the judgement (`covers_sound`, `judge_iff`, `mem_undeclared`), the model of form.build + "
+        "InputRegisters/OutputRegisters + ZeroExtend32BitOutputs yields exactly specReads/specWrites of the row's actions "
+        "(`declared_eq_spec`, tied to the real code by the exact `usedef` comparison on every measured instance), and the "
+        "structural facts of all regenerated table rows (`decide +kernel`). NOT PROVED, measured on the host CPU: that the "
+        "per-operand actions of the table agree with what the processor reads and writes (there is no ISA model in Lean).")
     if not ctx.build_harness(['c04.go', 'c04gen.go']):
         return
     ctx.regen([REGS] + formactions_modules())
@@ -19,10 +26,10 @@ def run(ctx):
     if not ctx.build_driver():
         return
     shards = [f"AvoVerif.Props.C04S{i}" for i in range(8)]
-    if ctx.lake_each(["AvoVerif.Props.C04"] + shards + ["AvoVerif.Props.C04Tables"]):
+    if ctx.lake_each(["AvoVerif.Props.C04", "AvoVerif.Props.C04Build"] + shards + ["AvoVerif.Props.C04Tables"]):
         ctx.audit("C04")
     if ctx.tier == "thorough":
-        ctx.leanchecker(["AvoVerif.Props.C04", "AvoVerif.Props.C04Tables"])
+        ctx.leanchecker(["AvoVerif.Props.C04", "AvoVerif.Props.C04Build", "AvoVerif.Props.C04Tables"])
 
     quick = ctx.tier == "quick"
     states = 8 if quick else 128
@@ -32,6 +39,7 @@ def run(ctx):
         extra.append("-allsfx")
     # n = 0: every executable form row (the whole table takes ~20 s at 8 states)
     nt = lambda req, resp: req.startswith("accept-rw ") and " O 0 0" not in req
+    ctx.run_corpus("c04", nontrivial=nt, max_report=10 ** 7)
     ctx.differential("c04", 0, extra=extra, nontrivial=nt, max_report=10 ** 7, timeout=3 * 3600)
 
     # the Lean verdict names the undeclared lanes: make it part of the key the findings are matched on
@@ -86,8 +94,7 @@ def run(ctx):
         "instances_writing_memory": cnt.get("memory_written_instances"),
     }
     ctx.coverage["input_distribution"]["c04"] = {"measured_by_class": st.get("measured_by_class"), "counts": cnt}
-    if st and not cnt.get("measured"):
-        ctx.obligation_failures.append(("c04 measurement", "no instance was measured"))
+    _floors(ctx, st, cnt, quick)
     ctx.coverage["rule"] = (
         "every form row whose ISA extensions the host CPU reports (/proc/cpuinfo), minus an explicit deny-list, instantiated "
         f"through the real x86 build with {choices} register choices (low registers; R8+/X8+/X16+ and indexed memory; the same "
@@ -110,11 +117,79 @@ def run(ctx):
         "instructions whose results are architecturally undefined are reported as this CPU behaves (BSF/BSR with a zero source "
         "leave the destination unchanged)",
         "the Go assembler's encoding of the printed text is taken as is (C05 is about its faithfulness)",
+        "NOT EXECUTED (deny-list): every form with a rel8/rel32 operand, JMP/CALL/RET/RETF*, INT/SYSCALL/UD2, PUSH*/POP*, "
+        "(V)LDMXCSR. Their rows are constrained only by table theorems (`denied_rows_declare_their_operands`: JCXZL/JCXZQ read "
+        "implicit ECX/RCX, PUSH reads and POP writes its operand, indirect JMP reads its operand, SYSCALL writes RCX and R11, "
+        "relative operands carry no action); RSP is outside avo's register model (no form declares it) and is not judged",
+        "operand shapes never generated: memory operands without base, symbol/pseudo-register memory operands, SP as an "
+        "operand, virtual registers (the judgement is about physical instances), K0 as an explicit operand",
+        "nondeterministic instructions (RDTSC, RDRAND, CPUID after migration …): every register they write is excluded from "
+        "read detection for that instance; a spurious event (interrupt-visible state) would be silent there",
+        "the finding regexes C04-COND32 / C04-CMPXCHG encode THIS CPU's behaviour for architecturally undefined results "
+        "(BSF/BSR of zero leave the destination unchanged)",
     ]
     ctx.trusted += [
         "c04child/runner.go.txt + tramp_amd64.s.txt: state load/capture around the instruction, perturbation and difference logic",
         "Linux delivers signals without disturbing the captured register state; GODEBUG=asyncpreemptoff=1 in the children",
+        "harness/formsdb.go: operand type / implicit register names resolved from the enum blocks of the x86 package sources "
+        "(any file of /repo/x86); feature and action bits come in a fixed layout from the verif hook",
+        "c04MatchedForm re-implements the first-match rule of x86.build to know which row was selected (cross-checked: the "
+        "exact `usedef` comparison fails if a different row's actions were used)",
     ]
+
+
+def _floors(ctx, st, cnt, quick):
+    """Lower bounds on what was judged and ceilings on what was dropped: a generator, assembler or runner change that
+    silently shrinks the measurement is a broken obligation, not a statistic."""
+    bad = lambda name, detail: ctx.obligation_failures.append((name, detail))
+    if ctx.replay:
+        return
+    if st.get("host_unsupported"):
+        ctx.notes.append("host CPU lacks AVX-512 (the trampoline loads Z0-Z31/K0-K7): nothing measured on this host")
+        ctx.assumptions.append("NOT MEASURED on this host: " + str(st.get("host_unsupported")))
+        return
+    if not st or not cnt.get("measured"):
+        return bad("c04 measurement", "no instance was measured")
+    req, built, meas = cnt.get("instances_requested", 0), cnt.get("instances_built", 0), cnt.get("measured", 0)
+    ctx.coverage["floors"] = fl = {}
+    def ceil(name, value, limit, what):
+        fl[name] = {"value": value, "limit": limit}
+        if value > limit:
+            bad("c04 " + name, f"{what}: {value} > {limit}")
+    def floor(name, value, limit, what):
+        fl[name] = {"value": value, "limit": limit}
+        if value < limit:
+            bad("c04 " + name, f"{what}: {value} < {limit}")
+    floor("eligible_rows", cnt.get("forms_eligible", 0), int(0.5 * cnt.get("forms_in_table", 0)) if _host_avx512(st) else 0,
+          "form rows executable on this host")
+    floor("built_instances", built, int(0.99 * req), "instances accepted by the real build + compile pipeline")
+    floor("measured_instances", meas, int(0.97 * req), "instances judged (accept-rw lines)")
+    ceil("asm_rejected_instances", cnt.get("asm_rejected_instances", 0), max(20, req // 200),
+         "instances avo printed and the Go assembler rejected (not judged)")
+    by = st.get("rows_unmeasured_by_reason") or {}
+    other = sum(v for k, v in by.items() if k != "crashed: SIGILL")
+    ceil("rows_unmeasured_other_than_SIGILL", other, 5, "eligible form rows without one judged instance " + str(by))
+    ceil("rows_unmeasured_SIGILL", by.get("crashed: SIGILL", 0), 130,
+         "eligible form rows all of whose instances raise #UD (extent of finding C04-Z-MEMDST is 111)")
+    unk = sum((st.get("unknown_isa_forms") or {}).values())
+    ceil("rows_of_unknown_isa", unk, cnt.get("forms_in_table", 0) // 50, "rows whose ISA name has no cpuinfo flag in c04ISAFlag "
+         + str(st.get("unknown_isa_forms")))
+    # declared reads that no instance exhibited: there a missing declaration would go unnoticed.  What remains on the
+    # unchanged table are over-declarations (VBLENDM* destinations and second sources, index operands of broadcast
+    # VPERM*, immediates selecting a constant function) and a few data-dependent stragglers.
+    ceil("declared_read_positions_unobserved", cnt.get("declared_read_positions_unobserved", 0), 260 if quick else 220,
+         "(form, operand) positions declared read whose read was never observed")
+    ceil("declared_write_positions_unobserved", cnt.get("declared_write_positions_unobserved", 0), 10,
+         "(form, operand) positions declared written whose write was never observed")
+    floor("declared_read_positions", cnt.get("declared_read_positions", 0), 20000 if _host_avx512(st) else 0,
+          "(form, register operand) positions with a declared read that were judged")
+    ctx.coverage["declared_reads_never_observed"] = (st.get("declared_reads_never_observed") or [])[:400]
+    ctx.coverage["declared_writes_never_observed"] = (st.get("declared_writes_never_observed") or [])[:50]
+    ctx.coverage["rows_unmeasured"] = {"by_reason": by, "examples": (st.get("rows_unmeasured_examples") or [])[:12]}
+
+
+def _host_avx512(st):
+    return not (st.get("skipped_isa_forms") or {}).get("AVX512F")
 
 
 def _short(key):
